@@ -135,6 +135,10 @@ PROPS["C06"] = {
         {"pkg": ".", "dir": "s3db", "entry": "VerifH_C06_scan",
          "quick": {"params": "keys=3,constraints=1,maxlayer=1,nulls=1,reopen=0,dels=2,orders=3", "workers": 16, "timeout": 1200},
          "thorough": {"params": "keys=3,constraints=2,maxlayer=2,nulls=1", "workers": 16, "timeout": 6000}},
+        {"pkg": "sqlite", "dir": "sqlite", "entry": "VerifH_C06_sqlite_scan", "extra": [("s3db_export", ".")], "no_native": True,
+         "quick": {"params": "keys=3,constraints=1,leadnonkey=1", "workers": 16, "timeout": 1800},
+         "thorough": {"params": "keys=4,constraints=2", "workers": 16, "timeout": 7200}},
+        {"pkg": ".", "dir": "s3db", "entry": "VerifH_C20_notnull", "quick": {"workers": 4, "timeout": 600}},
         {"pkg": ".", "dir": "s3db", "entry": "VerifH_C06_scan", "tag": "-2cons",
          "quick": {"params": "keys=2,constraints=2,maxlayer=1,nulls=0,reopen=0,dels=1,orders=3", "workers": 16, "timeout": 1200}},
     ],
@@ -262,8 +266,11 @@ PROPS["C20"] = {
          "thorough": {"params": "maxargs=3,maxval=2", "workers": 16, "timeout": 6000}},
         {"pkg": ".", "dir": "s3db", "entry": "VerifH_C20_schema", "no_native": True, "reach": ["end", "accepted"],
          "quick": {"workers": 16, "timeout": 1200}},
+        {"pkg": ".", "dir": "s3db", "entry": "VerifH_C20_notnull", "quick": {"workers": 4, "timeout": 600}},
+        {"pkg": "sqlite", "dir": "sqlite", "entry": "VerifH_C20_connect", "extra": [("s3db_export", ".")], "no_native": True,
+         "quick": {"workers": 4, "timeout": 600}},
     ],
-    "bounds": {"quick": "New: 1..2 arguments, option name from the seven documented ones plus misspelt/empty/upper-case ones, with or without '=', value an arbitrary byte string of 0..1 bytes; convertSchema, OpenKV and the unquoting parser stubbed nondeterministically. convertSchema: parsed schemas of 1..3 columns (names from {a,b,c}, type / NOT NULL / UNIQUE / DEFAULT flags) and a primary-key list of 0..2 names",
+    "bounds": {"quick": "sqlite layer: Create/Connect with a declaration that SQLite accepts or rejects; NOT NULL flags x NULL/non-NULL values on INSERT and UPDATE; New: 1..2 arguments, option name from the seven documented ones plus misspelt/empty/upper-case ones, with or without '=', value an arbitrary byte string of 0..1 bytes; convertSchema, OpenKV and the unquoting parser stubbed nondeterministically. convertSchema: parsed schemas of 1..3 columns (names from {a,b,c}, type / NOT NULL / UNIQUE / DEFAULT flags) and a primary-key list of 0..2 names",
                "thorough": "1..3 arguments, values 0..2 bytes"},
     "outside": "the regexp-combinator grammar (sql.Schema, UnquoteAll: quoting of names and values) and how SQLite parses the declared CREATE TABLE text; NOT NULL enforcement is a C06 matter",
     "assumptions": ["engine-only: the stubs cannot be installed natively"],
